@@ -14,7 +14,6 @@ import (
 	"os"
 	"path/filepath"
 	"regexp"
-	"runtime/pprof"
 	"sort"
 	"strings"
 	"sync/atomic"
@@ -141,6 +140,7 @@ type result struct {
 	Viol       []violRec        `json:"viol"`
 	Sample     string           `json:"sample,omitempty"`
 	Retired    int64            `json:"retired,omitempty"` // times the worker replaced its process image during this job
+	Ms         int64            `json:"ms,omitempty"`
 }
 
 // merge adds the results of the rest of a job to the part done before the worker replaced itself.
@@ -151,6 +151,7 @@ func (r *result) merge(o result) {
 	r.Subsumed += o.Subsumed
 	r.Remeasured += o.Remeasured
 	r.Retired += o.Retired
+	r.Ms += o.Ms
 	for k, c := range o.Out {
 		r.Out[k] += c
 	}
@@ -337,8 +338,10 @@ func overAlloc(alloc uint64, n int) string {
 	return fmt.Sprintf("allocated %d bytes decoding %d bytes (bound 1 MiB + 256 x length = %d)", alloc, n, allocBound(n))
 }
 
-func runJob(j job) result {
-	res := result{Out: map[string]int64{}}
+func runJob(j job) (res result) {
+	t0 := time.Now()
+	defer func() { res.Ms += time.Since(t0).Milliseconds() }()
+	res = result{Out: map[string]int64{}}
 	byKey := map[string]int{}
 	record := func(cell int, o outcome, input []byte) {
 		key := o.Kind + "|" + o.Site + "|" + msgClass(o.Msg)
@@ -496,14 +499,17 @@ type spaces struct {
 	explicitN map[string]int
 }
 
+// chunk deals the inputs out to jobs of about size inputs like cards: the mutants of one stream are
+// neighbours in the list, the expensive ones among them (a date whose tag became a count) would otherwise
+// all land in one job and that job would be the tail of the run.
 func chunk(domain string, in [][]byte, size int) []job {
-	var out []job
-	for i := 0; i < len(in); i += size {
-		j := i + size
-		if j > len(in) {
-			j = len(in)
-		}
-		out = append(out, job{Domain: domain, Inputs: in[i:j]})
+	n := (len(in) + size - 1) / size
+	out := make([]job, n)
+	for i := range out {
+		out[i].Domain = domain
+	}
+	for i, b := range in {
+		out[i%n].Inputs = append(out[i%n].Inputs, b)
 	}
 	return out
 }
@@ -793,8 +799,10 @@ func rank(j job) int {
 		return 1
 	case j.Exact:
 		return 2
+	case len(j.Inputs) > 0:
+		return 3 // mutants before the Sigma strings: some of them are slow
 	}
-	return 3
+	return 4
 }
 
 // ---- coordinator ----
@@ -868,6 +876,7 @@ func shortCell(v violRec) string {
 }
 
 var loopRe = regexp.MustCompile(`loop=(\S+)`)
+var blockRe = regexp.MustCompile(`cannot allocate ([0-9]+)-byte block`)
 
 // classify turns the death of a worker during evaluation idx of job j into a violation record.
 func classify(j job, idx int, f *shard.Failure) violRec {
@@ -898,8 +907,19 @@ func classify(j job, idx int, f *shard.Failure) violRec {
 		}
 	case f.Kind == "timeout":
 		v.Kind, v.Msg, v.Site = "hang-watchdog", f.Exit, "?"
-	case strings.Contains(se, "out of memory") || strings.Contains(se, "cannot allocate memory"):
+	case (strings.Contains(se, "out of memory") || strings.Contains(se, "cannot allocate memory")) && !strings.Contains(se, "runtime.newstack"):
 		v.Kind, v.Msg, v.Site = "out-of-memory", "the process died under ulimit -v 3 GiB: "+firstLine("runtime: out of memory")+firstLine("runtime: cannot allocate"), iocase.PanicSite(se)
+		if m := blockRe.FindStringSubmatch(se); m != nil && len(m[1]) < 9 {
+			// not one wire-sized request but many small ones: the address space was used up by a loop, and which of
+			// the allocations under that loop was the last straw is chance; name the loop
+			if i := strings.Index(se, "\ngoroutine 1 "); i >= 0 {
+				if l := loopSite(parseStack(se[i:])); l != "?" {
+					v.Site = l
+				}
+			}
+		}
+	case strings.Contains(se, "runtime.newstack"):
+		v.Kind, v.Msg = "stack-overflow", "the process died growing a goroutine stack: "+firstLine("runtime: out of memory")+firstLine("runtime: goroutine stack exceeds")
 	case strings.Contains(se, "stack overflow") || strings.Contains(se, "stack exceeds"):
 		v.Kind, v.Msg = "stack-overflow", "the process died: "+firstLine("runtime: goroutine stack exceeds")
 	default:
@@ -942,12 +962,6 @@ func main() {
 		openJournal()
 		go cpuWatchdog()
 		resume()
-		if f := os.Getenv("C04_CPUPROFILE"); f != "" {
-			w, _ := os.Create(f)
-			pprof.StartCPUProfile(w)
-			defer pprof.StopCPUProfile()
-			go func() { time.Sleep(8 * time.Second); pprof.StopCPUProfile(); os.Exit(0) }()
-		}
 		shard.Serve(func(raw json.RawMessage) interface{} {
 			var j job
 			if err := json.Unmarshal(raw, &j); err != nil {
@@ -994,7 +1008,7 @@ func main() {
 	}
 	var inputs, nontrivial, evals, subsumed, remeasured, deaths, bisections, retired int64
 	inputs, nontrivial = sp.risky, sp.riskyNT
-	out := map[string]int64{}
+	out, byDomain := map[string]int64{}, map[string]int64{}
 	samples := report.NewSamples(16)
 	var nextID uint64
 	pending := sp.jobs
@@ -1038,6 +1052,7 @@ func main() {
 				evals++
 				v := classify(j, idx, fail)
 				out[v.Kind]++
+				byDomain[j.Domain+":"+v.Kind]++
 				addViol(v)
 				if idx%n == 0 && !j.NoCount {
 					inputs++ // nobody else reports the input whose first evaluation died
@@ -1081,6 +1096,7 @@ func main() {
 				remeasured += r.Remeasured
 				for k, c := range r.Out {
 					out[k] += c
+					byDomain[j.Domain+":"+k] += c
 				}
 				for _, v := range r.Viol {
 					addViol(v)
@@ -1091,6 +1107,9 @@ func main() {
 					samples.Add(r.Sample)
 				}
 				retired += r.Retired
+				if r.Ms > 1500 && os.Getenv("C04_DEBUG") != "" {
+					fmt.Fprintf(os.Stderr, "slow job %dms: %s from %d to %d bomb %q inputs %d first %s retired %d evals %d\n", r.Ms, j.Domain, from, to, j.Bomb, j.nInputs(), quoted(j.input(from/n)), r.Retired, r.Evals)
+				}
 			}
 			if stageOne {
 				// second stage of a huge-count evaluation: the in-memory twin, unless the reader twin spins
@@ -1159,8 +1178,17 @@ func main() {
 			}
 		})
 	}
+	var unconfirmed []string
 	for _, s := range sigs {
 		a := aggs[s]
+		if isolated[s] == "no violation" {
+			// The representative does not fail alone in a fresh process, so the failure depended on what the worker
+			// had done before (or, for the wall-clock watchdog, on the load of the machine). That is not evidence
+			// against the one evaluation it was charged to: it is recorded, not reported.
+			unconfirmed = append(unconfirmed, fmt.Sprintf("%s: %s [input %s %s; cell %s; %d evaluations]", s, a.rep.Msg, a.rep.Quoted, a.rep.Bomb, a.rep.Name, a.count))
+			fmt.Fprintf(os.Stderr, "note: not reproduced alone in a fresh process, not reported: %s\n", unconfirmed[len(unconfirmed)-1])
+			continue
+		}
 		cells := corpus.SortedKeys(a.cells)
 		if len(cells) > 30 {
 			cells = append(cells[:30], fmt.Sprintf("... (%d cells)", len(a.cells)))
@@ -1187,13 +1215,15 @@ func main() {
 	run.Set("samples", samples.List())
 	run.Set("exhaustive", true)
 	run.Set("outcomes", out)
+	run.Set("outcomes_by_domain", byDomain)
 	run.Set("inmemory_evaluations_subsumed_by_spinning_reader_twin", subsumed)
 	run.Set("evaluations_remeasured_exactly_for_allocation", remeasured)
 	run.Set("worker_deaths_convicting_one_evaluation", deaths)
 	run.Set("ranges_bisected_without_journal", bisections)
 	run.Set("worker_retirements", retired)
 	run.Set("rounds", rounds)
-	run.Set("signatures", len(sigs))
+	run.Set("signatures", len(sigs)-len(unconfirmed))
+	run.Set("failures_not_reproduced_in_isolation", unconfirmed)
 	run.Set("in_memory_twin_confirmations", twin)
 	sp.info["io_explicit_inputs"] = sp.explicitN["io"]
 	sp.info["svc_explicit_inputs"] = sp.explicitN["svc"]
